@@ -371,6 +371,24 @@ def more_foveation(ctx):
                                   % (mode, equi, centre, float((out - ref).abs().max()) if out.shape == ref.shape else float('nan')), rec,
                                   {'fn': 'blur', 'what': 'moving_gaze', 'equi': equi, 'mode': mode})
                     break
+    # ---- the foveation plumbing applied to a float32 image gives the same result whatever global settings of torch are in force (default dtype float64,
+    # grad mode off); each entry returns under these settings on the unchanged tree
+    from ..lib import settings as ST
+    from odak.learn.perception.radially_varying_blur import RadiallyVaryingBlur as RVB_
+    import odak.learn.perception.foveation as FV_
+    from odak.learn.perception.spatial_steerable_pyramid import pad_image_for_pyramid as pad_
+    g_ = torch.Generator().manual_seed(ctx.seed + 181)
+    for (h_, w_) in ((32, 64), (33, 47)):
+        im_ = torch.rand(1, 3, h_, w_, generator=g_, dtype=torch.float32)
+        for nm_, f_ in (('blur planar quadratic', lambda: RVB_().blur(im_, 0.2, 0.2, 0.7, [0.4, 0.6], 'quadratic', False)),
+                        ('blur planar linear', lambda: RVB_().blur(im_, 0.1, 0.3, 0.6, [0.0, 1.0], 'linear', False)),
+                        ('blur equirectangular', lambda: RVB_().blur(im_, 0.2, 0.2, 0.7, [0.4, 0.2], 'quadratic', True)),
+                        ('pad_image_for_pyramid', lambda: pad_(im_, 5)),
+                        ('make_pooling_size_map_pixels', lambda: FV_.make_pooling_size_map_pixels([0.4, 0.6], [h_, w_], alpha=0.3, real_image_width=0.3,
+                                                                                                    real_viewing_distance=0.6, mode='quadratic')),
+                        ('make_equi_pooling_size_map_pixels', lambda: FV_.make_equi_pooling_size_map_pixels([0.5, 0.2], [h_, w_], alpha=0.3, mode='quadratic')),
+                        ('make_radial_map', lambda: FV_.make_radial_map([h_, w_], [0.3, 0.7]))):
+            ST.differential(ctx, 'C18 %s, %dx%d float32 image' % (nm_, h_, w_), f_, rtol=1e-4, atol=1e-5, cls={'fn': nm_}, must_return=True)
     __import__('harness.props.genfoveation', fromlist=['x']).check_generated_foveation(ctx)   # regenerated definitions vs /repo
 
 def replay(ctx, rep):
